@@ -3,6 +3,10 @@
 package trans
 
 import (
+	"context"
+
+	"github.com/specterops/dawgs/cypher/models/cypher"
+	"github.com/specterops/dawgs/cypher/models/pgsql/translate"
 	"github.com/specterops/dawgs/internal/verifrt"
 )
 
@@ -343,4 +347,53 @@ func VerifC04Witness() {
 	if err == nil {
 		verifrt.Assert(false, "witness: a two byte literal is translated")
 	}
+}
+
+// VerifC04Sent: the statement the PostgreSQL driver actually sends is the one
+// translate.FromCypher builds (drivers/pg/query.go): the Cypher text as a leading SQL
+// comment, then the translated SQL. With n symbolic raw bytes in a string literal the
+// comment must stay a comment: outside comment tokens the statement lexes exactly like
+// translate.Translated's text (which the other C04 harnesses examine), and the parameters
+// are the same.
+func VerifC04Sent(shape, n int) {
+	var q *cypher.RegularQuery
+	var err error
+	if shape < len(verifLitShapes) {
+		raw := verifrt.NondetString("literal body", n)
+		valid, _, _ := verifCypherBody(raw)
+		verifrt.Assume(valid)
+		q, err = verifNativeParse(verifLitShapes[shape], map[string]string{verifMarker: raw})
+	} else {
+		// a back-ticked property key instead (shape - len(verifLitShapes) of verifKeyShapes)
+		key := verifrt.NondetString("key", n)
+		for i := 0; i < len(key); i++ {
+			verifrt.Assume(key[i] != 0)
+		}
+		q, err = verifNativeParse(verifKeyShapes[shape-len(verifLitShapes)], map[string]string{verifMarker: key})
+	}
+	verifrt.Assert(err == nil, "template parses")
+	sql, params, err := verifTranslate(q, nil)
+	if err != nil {
+		return
+	}
+	sent, err := translate.FromCypher(context.Background(), q, verifKindMapper(), false, 1)
+	if err != nil {
+		return // refusing to send is safe
+	}
+	verifrt.Observe(sent.Statement)
+	st, tt := verifLexSQL(sent.Statement), verifLexSQL(sql)
+	k := 0
+	for _, tok := range st {
+		verifrt.Assert(tok.kind != 'E', "the sent statement lexes without error")
+		if tok.kind == 'c' {
+			continue
+		}
+		verifrt.Assert(k < len(tt), "outside its comment the sent statement has no token the translation does not have")
+		if k < len(tt) {
+			verifrt.Assert(tok.kind == tt[k].kind && sent.Statement[tok.start:tok.end] == sql[tt[k].start:tt[k].end], "outside its comment the sent statement is the translated SQL")
+		}
+		k++
+	}
+	verifrt.Assert(k == len(tt), "the sent statement carries the whole translated SQL")
+	verifrt.Assert(len(sent.Parameters) == len(params), "the sent parameters are the translation's")
 }
